@@ -22,7 +22,7 @@ Notation fmul := (Model.fmul prec emax Hp Hpe).
 Notation two := (of_Z prec emax Hp Hpe 2).
 Notation fmax := (f_max prec emax Hp Hpe).
 Notation fmin := (f_min prec emax Hp Hpe).
-Notation eabs := (e_abs prec emax Hp Hpe).
+Notation eabs := (e_abs prec emax).
 
 Let Hpe' : (prec < emax)%Z := Hpe.
 Let Hp' : (0 < prec)%Z := Hp.
